@@ -273,7 +273,7 @@ func runScheduleProperty(t *testing.T, id string, scenarios func(batch int) []Sc
 		run.NotExhaustive("VERIF_SCENARIO filter " + f)
 	}
 	nslots := len(batches) * len(scenarios(batches[0]))
-	slot := vk.Pick(run, 16*time.Minute, 45*time.Minute) / time.Duration(nslots)
+	slot := vk.Pick(run, 22*time.Minute, 45*time.Minute) / time.Duration(nslots)
 	run.Set("time_slot_per_scenario_s", slot.Seconds())
 	var total int64
 	per := map[string]any{}
